@@ -66,6 +66,7 @@ func init() {
 		"(reflect.rtype).Out":             ext۰reflect۰rtype۰Out,
 		"(reflect.rtype).Size":            ext۰reflect۰rtype۰Size,
 		"(reflect.rtype).String":          ext۰reflect۰rtype۰String,
+		"(reflect.rtype).Name":            ext۰reflect۰rtype۰Name,
 		"bytes.Equal":                     ext۰bytes۰Equal,
 		"bytes.IndexByte":                 ext۰bytes۰IndexByte,
 		"fmt.Sprint":                      ext۰fmt۰Sprint,
